@@ -35,6 +35,7 @@ import DiskfsModel.Proofs.IsoComposePT
 import DiskfsModel.Proofs.IsoRRRecord
 import DiskfsModel.Proofs.IsoSvd
 import DiskfsModel.Proofs.IsoComposeLimits
+import DiskfsModel.Proofs.IsoWalk
 import DiskfsModel.Generated.Iso
 namespace Diskfs.Iso.C06
 
@@ -764,5 +765,36 @@ example : ws.Limits wsFin 2048 wsO :=
     kids := by intro d hd; simp only [wsO, List.mem_cons, List.not_mem_nil, or_false] at hd; rcases hd with rfl | rfl <;> decide
     ptLen := by decide
     ptIn := by intro d hd; simp only [wsO, List.mem_cons, List.not_mem_nil, or_false] at hd; rcases hd with rfl | rfl <;> decide }
+
+/-- **workspace_entries_listed** (the statement of C06 for one entry): under the hypotheses of
+    `workspace_roundtrip`, for EVERY entry of the workspace reached from the root by a chain of at most
+    `fuel` children (each but the last a directory), the reader's listing of the image contains that entry
+    under the path made of the mapped identifiers along the chain, with its kind, the extent and size the
+    layout gave it, and — for a file — exactly its bytes. -/
+theorem workspace_entries_listed (w : WTree) (order : Nat → List Nm) (fin : Nat → Nat → Nm) (bs : Nat) (o : Order)
+    (sysId volId tail : Bytes) (d0 : Dev) (fuel : Nat)
+    (hbs : 2048 ≤ bs) (hbs16 : bs < 2 ^ 16) (hok : w.OK o) (hr : w.Resolved order fin)
+    (hlim : w.total fin bs o * bs < 2 ^ 32) (hs : sysId.length = 32) (hv : volId.length = 32) (ht : tail.length = 1858)
+    (hfit : w.Fits fuel 0) (chain : List Nat) (hne : chain ≠ []) (hch : w.Chain 0 chain) (hl : chain.length ≤ fuel) :
+    ∃ es, readImageP ((w.image fin bs o sysId volId tail).imageOn d0) (16 * bs) fuel =
+        some ((w.image fin bs o sysId volId tail).pvd, es) ∧
+      ({ path := chain.map (w.ident fin), isDir := w.isDir (chain.getLast hne), loc := w.loc fin bs o (chain.getLast hne),
+         size := w.size fin bs (chain.getLast hne),
+         data := if w.isDir (chain.getLast hne) then [] else w.content (chain.getLast hne) } : RE) ∈ es :=
+  compose_lists w order fin bs o sysId volId tail hbs hbs16 hok hr hlim hs hv ht d0 fuel hfit chain hne hch hl
+
+/-- for the concrete workspace: D/B.;1 is listed at block 23 with its byte -/
+example : ∃ es, readImageP ((ws.image wsFin 2048 wsO (zeros 32) (zeros 32) (zeros 1858)).imageOn (fun _ => 255)) (16 * 2048) 3 =
+      some ((ws.image wsFin 2048 wsO (zeros 32) (zeros 32) (zeros 1858)).pvd, es) ∧
+    ({ path := [[68], [66, 46, 59, 49]], isDir := false, loc := 23, size := 1, data := [9] } : RE) ∈ es := by
+  have h := workspace_entries_listed ws (fun _ => []) wsFin 2048 wsO (zeros 32) (zeros 32) (zeros 1858) (fun _ => 255) 3
+    (by decide) (by decide) wsOK wsRes (by decide +kernel) (by simp) (by simp) (by simp) wsFits [2, 3] (by simp)
+    (by simp [WTree.Chain, ws]) (by decide)
+  obtain ⟨es, h1, h2⟩ := h
+  refine ⟨es, h1, ?_⟩
+  have e : RE.mk ([2, 3].map (ws.ident wsFin)) (ws.isDir 3) (ws.loc wsFin 2048 wsO 3) (ws.size wsFin 2048 3)
+      (if ws.isDir 3 then [] else ws.content 3) = RE.mk [[68], [66, 46, 59, 49]] false 23 1 [9] := by decide +kernel
+  rw [← e]
+  exact h2
 
 end Diskfs.Iso.C06
